@@ -202,15 +202,19 @@ class TranslatorSMT2(Translator):
                 elif expr.op == "*":
                     res = bvmul(res, arg)
                 elif expr.op == "/":
-                    res = bvsdiv(res, arg)
+                    # '/' is the unsigned division
+                    res = bvudiv(res, arg)
                 elif expr.op == "sdiv":
                     res = bvsdiv(res, arg)
                 elif expr.op == "udiv":
                     res = bvudiv(res, arg)
                 elif expr.op == "%":
-                    res = bvsmod(res, arg)
+                    # '%' is the unsigned remainder
+                    res = bvurem(res, arg)
                 elif expr.op == "smod":
-                    res = bvsmod(res, arg)
+                    # C-like remainder: sign follows the dividend (bvsrem),
+                    # bvsmod's sign follows the divisor
+                    res = bvsrem(res, arg)
                 elif expr.op == "umod":
                     res = bvurem(res, arg)
                 elif expr.op == "&":
